@@ -129,7 +129,9 @@ CHECKS['C13'] = dict(
 CHECKS['C14'] = dict(
     technique='runtime monitor: histories of the real assignment routine - stepped request by request (every OMS map '
               'recorded after each step) or called once with the whole batch as planning() does (outcomes and final maps '
-              'recorded) - replayed against an executable allocator model (history + model checker)',
+              'recorded) - replayed against an executable allocator model (history + model checker); the '
+              "repository's own tests run with a call-boundary recorder on pth_assign_spectrum (no double booking, "
+              "maps after = maps before + accepted ranges)",
     text='The outcome of each request and the OMS maps are compared with a set-based model: disjointness both '
          'directions, guard bands, usable slots, enough slots, first fit by brute force, fixed values honoured, '
          'blocked => unchanged, occupancy = union. Exploration over synthetic histories and planning() batches.',
